@@ -110,8 +110,10 @@ class KindFlow(MustFlow):
         on_expr: Optional[Callable] = None,
         call_kinds: Optional[Callable] = None,
         class_kinds: Optional[Callable[[str], Optional[str]]] = None,
+        module_consts: Optional[dict] = None,
     ):
         super().__init__()
+        self.module_consts = module_consts or {}
         self.param_kinds = param_kinds or {}
         self.on_expr = on_expr
         self.call_kinds = call_kinds
@@ -314,6 +316,11 @@ class KindFlow(MustFlow):
                 out.extend(r)
             return out
         if isinstance(t, ast.Name):
+            # a module-level constant naming a tuple of classes: _NUMERIC_TYPES = (int, float, Decimal)
+            mc = getattr(self, "module_consts", None) or {}
+            v = mc.get(t.id)
+            if isinstance(v, ast.Tuple) and t.id not in ISINSTANCE_KINDS and t.id not in ABSTRACT:
+                return self._class_names(v)
             return [t.id]
         if isinstance(t, ast.Attribute):
             return [t.attr]
